@@ -496,7 +496,7 @@ func enumLin(t *testing.T, prop string, filter func(enumCase) bool) {
 		if i%nshards != shard || (filter != nil && !filter(ec)) {
 			continue
 		}
-		if !Thorough() && Hash(seed, i)%4 != 0 && !ec.HalfFreed && !ec.Sweep {
+		if !Thorough() && Hash(seed, i)%4 != 0 && !ec.HalfFreed && !ec.Sweep && prop != "C14" {
 			continue
 		}
 		if only := os.Getenv("VERIF_ENUM_ONLY"); (only == "sweep" && !ec.Sweep) || (only == "plus" && ec.Op0.Kind != "readdirplus" && ec.Op0.Kind != "setattrhm") || (only == "cold" && (!ec.Cold || ec.HFile)) {
@@ -581,6 +581,23 @@ func enumLin(t *testing.T, prop string, filter func(enumCase) bool) {
 		}
 		if r.Slow {
 			St.Class("call_too_slow_for_the_harness_not_judged")
+			continue
+		}
+		if prop == "C14" {
+			// race build: the detector is the oracle, replies are other properties' subjects
+			if !r.Hung && r.Panic == "" {
+				Guard(10*time.Second, func() { w.S.Quiesce() })
+				w.S.Stop()
+			}
+			run++
+			St.Eval(1)
+			if r.Paused {
+				paused++
+				St.NT(Hash("enum", i))
+			}
+			if run == 1 {
+				St.Sample(map[string]any{"kind": "enumerated two-client case under the race detector", "index": i, "case": cc.describe(), "history": describeHistory(all)}, r.Paused)
+			}
 			continue
 		}
 		if r.HungInFinal {
